@@ -301,6 +301,11 @@ DoneOK(d) ==
   /\ P("C02") =>
        /\ st = "PrimalInfeasible" => CertPinf(o, o.f)
        /\ st = "DualInfeasible" => CertDinf(o, o.f)
+  \* --- C07: a point handed back when the loop was cut short is the current iterate in the user's coordinates: the
+  \*     change of variables preserves the cones, so it is interior (up to the observer's rounding floor) like the iterate
+  /\ P("C07") => (st \in {"MaxIterations", "MaxTime", "InsufficientProgress"} =>
+                    /\ (IsNaN(o.smin) \/ FGe(o.smin, o.margin_floor))
+                    /\ (IsNaN(o.zmin) \/ FGe(o.zmin, o.margin_floor)))
   \* --- C20: the rows parsed back from the print buffer (when captured)
   /\ (P("C20") /\ d.print.captured) =>
         /\ d.print.rows = [i \in 1..Len(printed) |-> printed[i][1]]
